@@ -34,6 +34,7 @@ type Job struct {
 	IgnorePanics  bool
 	SymIndex      bool // keep symbolic indices into scalar slices symbolic (bloom bitset)
 	NoSummaries   bool
+	PoolPreempt   bool // sync.Pool Get/Put are preemption points too (they carry happens-before edges)
 	SameSecond    bool // every WAL name falls into the same second (nanosecond digits decide)
 
 	MaxPaths  int           // 0 = unlimited
@@ -148,6 +149,7 @@ func (r *propRun) explore(j Job) *jobResult {
 		}
 		m.WithInits = j.Inits
 		m.SameSecond = j.SameSecond
+		m.PoolPreempt = j.PoolPreempt
 		m.ExploreSched = j.Sched
 		m.MaxDev = j.MaxDev
 		m.Eager = j.Eager
